@@ -18,6 +18,8 @@ def run(ctx):
     # timers firing at the very instant other branches park or finish (re-submission racing with the decision)
     for i in range(ctx.scale(200, 4000)):
         comp_executor.one(ctx, "C07", comp_executor.gen_timer_race(ctx.rng), ctx.rng.randrange(1 << 30), component="executor.timer_race")
+    # no invocation runs for ever, whether blocked on ... a failed checkpoint: the failing call is the timer thread's refresh
+    comp_executor.run_refresh_fault(ctx, "C07")
 
 
 def search(ctx):
